@@ -406,7 +406,7 @@ Theorem sim_ifc c e s sp so a b x y types thenc elsec lc code lc' pc :
   rel c e s sp -> lookup_int e a = Some x ->
   match b with Some b => lookup_int e b | None => Some 0 end = Some y ->
   xcs types (IfC so a b thenc elsec) c lc = Ok (code, lc') ->
-  code_at im pc code -> labels_at im pc code ->
+  code_at im pc code -> labels_at_nh im pc code ->
   exists c1 c2 lc2 c3 s',
     code = c1 ++ c2 ++ [LAB (iflabel lc)] ++ c3 /\
     xcs types elsec c (lc + 1)%N = Ok (c2, lc2) /\ xcs types thenc c lc2 = Ok (c3, lc') /\
@@ -436,7 +436,7 @@ Proof.
   pose proof (x86_jcc_step im so (iflabel lc) s1 x y FL) as ST.
   rewrite app_length. cbn [List.length].
   destruct (eval_cmp so x y).
-  - rewrite (goto_label_at im pc _ _ _ s1 LBL LL) in ST.
+  - rewrite (goto_label_at im pc _ _ _ s1 LBL LL eq_refl) in ST.
     eapply exec_to_trans; [exact X1|].
     eapply exec_jump; [exact CJ|exact ST|].
     eapply exec_next; [apply (code_at_nth im pc _ _ _ CA LL)|reflexivity|].
